@@ -11,7 +11,7 @@ import c13_lib as L
 
 ID = 'C13'
 LEAN_MODULES = ['Pfst.Props.C13', 'Pfst.Props.C13Options', 'Pfst.Props.C13Fallback', 'Pfst.Props.C13Params',
-                'Pfst.Props.C13Foreign']
+                'Pfst.Props.C13Foreign', 'Pfst.Props.C13Prims']
 LEAN_DEPS = ['Pfst.Reconcile', 'Pfst.ReconcileLemmas']
 THEOREMS = [
     'Pfst.C13.frame', 'Pfst.C13.fallback_overrides', 'Pfst.C13.foreign_ok_correct', 'Pfst.C13.fields_scalar_correct',
@@ -28,6 +28,8 @@ THEOREMS = [
     'Pfst.C13.recNode_is_fallbackStep',
     # the parameter defaults of Reconcile.__init__ (Pfst/Gen/ReconcileParams.lean)
     'Pfst.C13.foreign_run_needs_verified', 'Pfst.C13.foreign_run_unverified_falls_back', 'Pfst.C13.foreign_unverified_is_ast_put',
+    'Pfst.C13.prims_battery_complete', 'Pfst.C13.verify_compares_exactly', 'Pfst.C13.reconcile_compares_exactly',
+    'Pfst.C13.comparison_sites_agree',
     'Pfst.C13.params_lattice_complete', 'Pfst.C13.omitted_gets_default', 'Pfst.C13.given_is_kept', 'Pfst.C13.param_independent',
 ]
 RULE = ('corpus programs (snippets covering every node type, generated programs, layout / comment / parenthesis variants, '
@@ -47,6 +49,11 @@ RULE = ('corpus programs (snippets covering every node type, generated programs,
         'FOREIGN-RUN FAMILY (every run): runs (length 1-3, start / middle / end) of nodes of ANOTHER marked tree whose list the user '
         'reversed / shortened / lengthened / rotated there (pure AST) before splicing them into statement bodies, List / Tuple / Set '
         'elts, Dict pairs (slice-capable) and Call args, decorators, MatchSequence patterns (one by one): 405 scripts. '
+        'FOREIGN-PRIMITIVE FAMILY (every run): primitives edited in ANOTHER tree (1 -> True, 0 -> False / 0.0, 30 -> 30.0, True -> 1, '
+        'renames, string changes; links stay intact) before a statement, a run of statements, a value expression or container '
+        'elements of it are mixed in: 46 scripts; plus the random `foreign_conflate` mode. The two primitive comparison sites '
+        '(compare_asts used by verify() of copies, recurse_children) are evaluated on a 13 x 13 value battery into '
+        'Pfst/Gen/ReconcilePrims.lean. '
         'DICT FAMILY (every run): fixed Dicts and a MatchMapping whose keys and values / patterns are edited INDEPENDENTLY (swap or '
         'rotate values only, keys only, key of one entry with the value of another from the same Dict, from a second in-tree Dict, from a '
         'Dict of another tree, with ** entries). PARAMETERS: a slice of the scripts is re-run with every combination of reconcile()\'s '
@@ -153,7 +160,7 @@ def _under_elif(root, path):
     return False
 
 
-SPECIAL = ('prim_conflate', 'foreign_prim', 'prim_ellipsis', 'prim_attr_int')
+SPECIAL = ('prim_conflate', 'foreign_prim', 'foreign_conflate', 'prim_ellipsis', 'prim_attr_int')
 
 
 def _w_foreign_compare(a, FST):
@@ -306,8 +313,73 @@ def _foreign_case(kind, edit, n, pos):
                        'dict': 'Dict.dict', 'args': 'Call.args', 'decos': 'FunctionDef.decorator_list', 'mseq': 'MatchSequence.patterns'}[kind])
 
 
+# ---- deterministic family: primitives edited in ANOTHER tree (also to == values of another type) before its nodes are mixed in ---
+
+FPRIM_OTHER = ('def defaults():\n    retries = 1  # max retries\n    timeout = [0, 30]  # seconds\n    return retries, timeout\n'
+               'flag = 1  # f\nzero = 0\nd = {1: 0, \'k\': 30}  # d\non = True\nlst = [0,  1, 2 ,  3]  # l\nr = g(x)  # call\n')
+
+
+def _fprim_edits():
+    """name -> (index of the statement of the other tree that holds the edit, edit of the other tree's AST)"""
+    def const(n):
+        return [x for x in ast.walk(n) if isinstance(x, ast.Constant)]
+
+    def setc(stmt, k, v):
+        const(stmt)[k].value = v
+
+    E = {}
+    E['int1_to_True'] = (1, lambda m: setc(m.body[1], 0, True))
+    E['int0_to_False'] = (2, lambda m: setc(m.body[2], 0, False))
+    E['int0_to_float'] = (2, lambda m: setc(m.body[2], 0, 0.0))
+    E['True_to_int'] = (4, lambda m: setc(m.body[4], 0, 1))
+    E['in_def_1_to_True'] = (0, lambda m: setc(m.body[0].body[0], 0, True))
+    E['in_def_30_to_float'] = (0, lambda m: setc(m.body[0].body[1], 1, 30.0))
+    E['dict_key_1_to_True'] = (3, lambda m: setc(m.body[3], 0, True))
+    E['dict_val_30_to_float'] = (3, lambda m: setc(m.body[3], 3, 30.0))
+    E['list_elt_1_to_True'] = (5, lambda m: setc(m.body[5], 1, True))
+    E['int1_to_2'] = (1, lambda m: setc(m.body[1], 0, 2))
+    E['str_changed'] = (3, lambda m: setc(m.body[3], 2, 'K'))
+    E['name_renamed'] = (6, lambda m: setattr(m.body[6].value.args[0], 'id', 'x_changed'))
+    E['target_renamed'] = (1, lambda m: setattr(m.body[1].targets[0], 'id', 'flag_changed'))
+    E['func_renamed'] = (0, lambda m: setattr(m.body[0], 'name', 'defaults_changed'))
+    return E
+
+
+def _fprim_case(edit, splice):
+    idx, fn_edit = _fprim_edits()[edit]
+
+    def fn(a, FST):
+        o = FST(FPRIM_OTHER, 'exec')
+        fn_edit(o.a)                                   # the OTHER tree's AST is edited (primitives only: links stay intact)
+        ob = o.a.body
+        if splice == 'stmt':                           # the statement alone (a slice run of one)
+            a.body.insert(1, ob[idx])
+        elif splice == 'run':                          # a run of statements around it
+            lo = max(0, idx - 1)
+            a.body[1:1] = ob[lo:lo + 3]
+        elif splice == 'value':                        # its value expression as a single node
+            n = ob[idx]
+            a.body[0].value = n.value if hasattr(n, 'value') else n.body[0].value
+        elif splice == 'elts':                         # elements / pairs of its container value
+            v = ob[idx].value
+            if isinstance(v, ast.Dict):
+                a.body[2].value.keys.extend(v.keys)
+                a.body[2].value.values.extend(v.values)
+            else:
+                a.body[1].value.elts.extend(v.elts)
+        return o
+
+    return ('x = 0  # first\ny = [9]\nz = {8: 7}\nw = 5  # last\n', fn,
+            {'stmt': 'Module.body', 'run': 'Module.body', 'value': 'Assign.value', 'elts': 'List.elts'}[splice])
+
+
 def _family():
     fam = {}
+    for edit in _fprim_edits():
+        for splice in ('stmt', 'run', 'value'):
+            fam[f'fprim_{edit}_{splice}'] = _fprim_case(edit, splice)
+    for edit in ('dict_key_1_to_True', 'dict_val_30_to_float', 'list_elt_1_to_True', 'str_changed'):
+        fam[f'fprim_{edit}_elts'] = _fprim_case(edit, 'elts')
     for kind in FOREIGN_KINDS:
         for edit in _foreign_edits():
             for n in (1, 2, 3):
@@ -1056,6 +1128,46 @@ def _probe_params(_=None):
     return {'params': list(PARAMS), 'defaults': {k: repr(v) for k, v in defaults.items()}, 'rows': rows}
 
 
+def _probe_prims(_=None):
+    """Runs in a forked child.  The two places where reconcile decides whether a primitive changed, evaluated on every ordered
+    pair of a value battery: (a) astutil.compare_asts (what `copy().verify()` / `get_slice().verify()` use on nodes of ANOTHER
+    tree), with type_comments off and on; (b) Reconcile.recurse_children on an in-tree Constant (does the returned tree hold
+    the new value?).  Judge: Python `==` AND identity of type."""
+    from fst import FST
+    from fst import astutil
+    vals = [0, 1, 2, 30, True, False, 0.0, 1.0, 30.0, 1j, 'a', b'a', None]
+    rows = []
+    for a in vals:
+        for b in vals:
+            same_eq = bool(a == b)
+            same_ty = type(a) is type(b)
+            v0 = bool(astutil.compare_asts(ast.Constant(a), ast.Constant(b), raise_=False))
+            v1 = bool(astutil.compare_asts(ast.Constant(a), ast.Constant(b), type_comments=True, raise_=False))
+            try:
+                f = FST(f'x = {a!r}', 'exec')
+                f.mark()
+                f.a.body[0].value.value = b
+                o = f.reconcile()
+                sees = ast.dump(o.a.body[0].value) != ast.dump(ast.Constant(a))
+            except Exception:
+                sees = True
+            rows.append([repr(a), repr(b), same_eq, same_ty, v0, v1, sees])
+    return {'rows': rows}
+
+
+_PRIMS_T = None
+
+
+def _prims_table():
+    global _PRIMS_T
+    if _PRIMS_T is None:
+        r = L.fork_map(_probe_prims, [None], nchunks=1)[0]
+        if 'crash' in r:
+            raise RuntimeError('prims probe failed: ' + r['crash'])
+        _PRIMS_T = r
+    return _PRIMS_T
+
+
 _PARAMS_T = None
 
 
@@ -1149,6 +1261,17 @@ def extract(ctx):
            'end Pfst.Gen.ReconcileParams\n')
     framework.write_if_changed(framework.LEAN / 'Pfst' / 'Gen' / 'ReconcileParams.lean', txt)
     ctx.notes['reconcile_params_table'] = pt
+    pr = _prims_table()
+    B = lambda x: 'true' if x else 'false'
+    txt = ('-- GENERATED by harness/props/C13.py (extract) from the imported /repo modules; do not edit\n'
+           'namespace Pfst.Gen.ReconcilePrims\n\n'
+           '/-- every ordered pair (old, new) of a primitive battery: reprs, `old == new`, `type(old) is type(new)`,\n'
+           '`compare_asts` says equal (type_comments off / on: what `verify()` of a copy from another tree uses),\n'
+           '`reconcile()` of an in-tree Constant edited old -> new returns the new value -/\n'
+           'def rows : List (String × String × Bool × Bool × Bool × Bool × Bool) := [\n  '
+           + ',\n  '.join(f'({q(r[0])}, {q(r[1])}, {B(r[2])}, {B(r[3])}, {B(r[4])}, {B(r[5])}, {B(r[6])})' for r in pr['rows']) + ']\n\n'
+           'end Pfst.Gen.ReconcilePrims\n')
+    framework.write_if_changed(framework.LEAN / 'Pfst' / 'Gen' / 'ReconcilePrims.lean', txt)
 
 
 def _env_cases(ctx, progs, per_env, ncombos):
